@@ -39,6 +39,8 @@ var scalarsFull = []scalar{
 	{"i:0", si(0)}, {"i:-1", si(-1)}, {"i:max", si(math.MaxInt64)}, {"i:min", si(math.MinInt64)}, {"i:2^53+1", si(1<<53 + 1)},
 	{"f:0", sf(0)}, {"f:-0", sf(math.Copysign(0, -1))}, {"f:1", sf(1)}, {"f:1.5", sf(1.5)}, {"f:-2.5", sf(-2.5)},
 	{"f:1e21", sf(1e21)}, {"f:1e20", sf(1e20)}, {"f:1e-7", sf(1e-7)}, {"f:1e-6", sf(1e-6)}, {"f:2^53", sf(1 << 53)},
+	// exponent form with every shape of exponent: one digit, zero padded by Go (e-09), trailing zeros (e-10, e+30), three digits
+	{"f:1e-9", sf(1e-9)}, {"f:1e-10", sf(1e-10)}, {"f:2.5e-10", sf(2.5e-10)}, {"f:1e30", sf(1e30)}, {"f:1e100", sf(1e100)}, {"f:1e-100", sf(1e-100)}, {"f:1e200", sf(1e200)}, {"f:-1e-20", sf(-1e-20)},
 	{"f:123456789.125", sf(123456789.125)}, {"f:5e-324", sf(5e-324)}, {"f:max", sf(math.MaxFloat64)}, {"f:-max", sf(-math.MaxFloat64)},
 	{"f:nan", sf(math.NaN())}, {"f:+inf", sf(math.Inf(1))}, {"f:-inf", sf(math.Inf(-1))},
 	{"s:empty", ss("")}, {"s:a", ss("a")}, {"s:quote", ss(`a"b`)}, {"s:bslash", ss(`a\b`)}, {"s:bslash-u", ss(`\` + `u0041`)},
